@@ -84,7 +84,6 @@ class Fragment(AbstractApplication):
         # take the payload data to fragment it
         pyld_blk = ctr.block_num(Bundle.BLOCK_NUM_PAYLOAD)
         payload_data = pyld_blk.getfieldval('btsd')
-        pyld_blk.delfieldval('btsd')
         payload_size = len(payload_data)
         LOGGER.info('Payload data size %d', payload_size)
         # maximum size of each fragment field
@@ -94,8 +93,12 @@ class Fragment(AbstractApplication):
         non_pyld_size = orig_size - payload_size + 3 * pyld_size_enc
         LOGGER.info('Non-payload size %d', non_pyld_size)
         if non_pyld_size > mtu:
+            # cannot be sent on this route at all
+            ctr.route = None
+            ctr.sender = None
             raise RuntimeError('Non-payload size {} too large for route MTU {}'.format(orig_size, mtu))
 
+        fragments = []
         frag_offset = 0
         while frag_offset < len(payload_data):
             fctr = BundleContainer()
@@ -108,7 +111,12 @@ class Fragment(AbstractApplication):
                 if (frag_offset == 0
                     or blk.block_flags & CanonicalBlock.Flag.REPLICATE_IN_FRAGMENT
                         or blk.block_num == Bundle.BLOCK_NUM_PAYLOAD):
-                    fctr.bundle.blocks.append(blk.copy())
+                    newblk = blk.copy()
+                    if blk.block_num == Bundle.BLOCK_NUM_PAYLOAD:
+                        # start from a zero-size payload
+                        newblk.remove_payload()
+                        newblk.setfieldval('btsd', b'')
+                    fctr.bundle.blocks.append(newblk)
             # ensure full size (with zero-size payload)
             fctr.reload()
             fctr.bundle.fill_fields()
@@ -117,6 +125,9 @@ class Fragment(AbstractApplication):
             # zero-length payload has one-octet encoded bstr head
             frag_size = mtu - (non_pyld_size - 1 + pyld_size_enc)
             if frag_size <= 0:
+                # cannot be sent on this route at all
+                ctr.route = None
+                ctr.sender = None
                 raise RuntimeError('Payload size {} too large for route MTU {}'.format(frag_size, mtu))
 
             LOGGER.info('Fragment non-payload size %d, offset %d, (max) size %d', non_pyld_size, frag_offset, frag_size)
@@ -124,7 +135,10 @@ class Fragment(AbstractApplication):
             frag_offset += frag_size
 
             fctr.block_num(Bundle.BLOCK_NUM_PAYLOAD).setfieldval('btsd', frag_data)
+            fragments.append(fctr)
 
+        # only send when the whole payload could be fragmented
+        for fctr in fragments:
             glib.idle_add(self._agent.send_bundle, fctr)
 
         # internal action, not delete
